@@ -7,7 +7,7 @@
 From Coq Require Import String List ZArith NArith Bool.
 From Model Require Import Base PyVal TableTypes B64 C16Model.
 From Gen Require Import Tables TablesC16.
-From Proofs Require Import C16Proofs.
+From Proofs Require Import C16Proofs C16Refuted.
 Import ListNotations.
 Open Scope N_scope.
 
@@ -30,19 +30,46 @@ Fixpoint lookup (tbl : list (bytes * res pv)) (b : bytes) : res pv :=
   match tbl with [] => Err EOracleMiss | (k, v) :: r => if beqb k b then v else lookup r b end.
 
 Definition miss {A} : res A := Err EOracleMiss.
-Definition cprims (tbl : list (bytes * res pv)) (vr : res bool) : prims :=
-  {| p_json_loads := lookup tbl;
-     p_jws_verify := fun _ _ _ _ => vr;
-     p_enc_decrypt := fun _ _ _ _ _ _ => miss; p_inflate := fun _ => miss; p_dir_cek := fun _ _ => miss;
-     p_decrypt_cek := fun _ _ _ => miss; p_gcmkw := fun _ _ _ _ _ => miss; p_pbkdf2 := fun _ _ _ _ => miss;
-     p_unwrap := fun _ _ _ => miss; p_import_epk := fun _ _ _ => miss; p_exchange := fun _ _ => miss;
-     p_concat_kdf := fun _ _ _ => miss |}.
+(* a primitive the real run did not reach *)
+Definition unreached {A} : res A := Err EIndex.
+
+(* results of the primitives recorded from the real run (each called at most once) *)
+Record recorded := {
+  rp_verify : res bool; rp_enc : res bytes; rp_inflate : res bytes; rp_rsa : res bytes; rp_aes : res bytes;
+  rp_gcm : res bytes; rp_pbkdf2 : res bytes; rp_import : res unit; rp_ecdh_epk : res bytes;
+  rp_ecdh_sender : res bytes; rp_kdf : res bytes
+}.
+Definition no_rec (vr : res bool) : recorded :=
+  {| rp_verify := vr; rp_enc := unreached; rp_inflate := unreached; rp_rsa := unreached; rp_aes := unreached;
+     rp_gcm := unreached; rp_pbkdf2 := unreached; rp_import := unreached; rp_ecdh_epk := unreached;
+     rp_ecdh_sender := unreached; rp_kdf := unreached |}.
+
+Definition rprims (json : bytes -> res pv) (r : recorded) : prims :=
+  {| p_json_loads := json;
+     p_jws_verify := fun _ _ _ _ => rp_verify r;
+     p_enc_decrypt := fun _ _ _ _ _ _ => rp_enc r;
+     p_inflate := fun _ => rp_inflate r;
+     p_rsa_decrypt := fun _ _ _ => rp_rsa r;
+     p_aes_unwrap := fun _ _ => rp_aes r;
+     p_gcm_unwrap := fun _ _ _ _ => rp_gcm r;
+     p_pbkdf2 := fun _ _ _ _ => rp_pbkdf2 r;
+     p_import_epk := fun _ _ _ => rp_import r;
+     (* the imported epk has no kid; the sender keys of the harness have one *)
+     p_ecdh := fun _ other => match k_kid other with PNone => rp_ecdh_epk r | _ => rp_ecdh_sender r end;
+     p_concat_kdf := fun _ _ _ => rp_kdf r |}.
+Definition cprims (tbl : list (bytes * res pv)) (vr : res bool) : prims := rprims (lookup tbl) (no_rec vr).
+Definition jprims (j : res pv) : prims := rprims (fun _ => j) (no_rec miss).
+Definition is_unreached {A} (m : res A) : bool := match m with Err EIndex => true | _ => false end.
 
 Definition mk_jws_reg (r7797 strict : bool) (allowed : list string) : jws_reg :=
   {| jr_hreg := if r7797 then jws7797_default_header_registry else jws_default_instance_header_registry;
      jr_strict := strict; jr_allowed := allowed; jr_7797 := r7797 |}.
 Definition mk_jwe_reg (strict : bool) (allowed : list string) : jwe_reg :=
-  {| er_hreg := jwe_default_instance_header_registry; er_strict := strict; er_allowed := allowed; er_verify_all := true |}.
+  {| er_hreg := jwe_default_instance_header_registry; er_strict := strict; er_allowed := allowed; er_verify_all := true;
+     er_drafts := true |}.
+Definition mk_jwe_reg2 (strict verify_all : bool) (allowed : list string) : jwe_reg :=
+  {| er_hreg := jwe_default_instance_header_registry; er_strict := strict; er_allowed := allowed;
+     er_verify_all := verify_all; er_drafts := true |}.
 
 Definition kind_of (name : string) : vkind :=
   match find (fun p => String.eqb (fst p) name) validator_kinds with Some (_, k) => k | None => VUnknown 0 end.
@@ -82,6 +109,12 @@ Inductive c16case :=
 (* entry: 0 jws.deserialize_compact, 1 rfc7797.deserialize_compact, 2 jwt.decode *)
 | EJws (entry : N) (strict : bool) (allowed : list string) (ka : keyarg) (value : cinput)
        (oracle : list (bytes * res pv)) (vr : res bool) (e : res unit)
+(* JWE end to end: entry 0 jwe.decrypt_compact, 1 jwt.decode (JWE registry), 2 jwe.decrypt_json *)
+| EJwe (entry : N) (strict verify_all : bool) (allowed : list string) (ka : keyarg) (sa : senderarg)
+       (value : cinput) (data : pv) (oracle : list (bytes * res pv)) (r : recorded) (e : res unit)
+| FGuessKey (ka : keyarg) (h : pv) (e : res N)
+| FGuessSender (sa : senderarg) (h : pv) (e : res N)
+| CContract (name : string) (e : exn)
 | CGuards.
 
 Definition unit_cls (m : res unit) (e : res unit) : bool := res_cls m e.
@@ -125,18 +158,10 @@ Definition c16_check (c : c16case) : bool :=
   | FMemberHeaders p h e => declined (member_headers p h) || res_pv (member_headers p h) e
   | FRecipientHeaders j p u h e => declined (recipient_headers j p u h) || res_pv (recipient_headers j p u h) e
   | FJsonB64 text j e =>
-      let P := {| p_json_loads := fun _ => j; p_jws_verify := fun _ _ _ _ => miss;
-                  p_enc_decrypt := fun _ _ _ _ _ _ => miss; p_inflate := fun _ => miss; p_dir_cek := fun _ _ => miss;
-                  p_decrypt_cek := fun _ _ _ => miss; p_gcmkw := fun _ _ _ _ _ => miss; p_pbkdf2 := fun _ _ _ _ => miss;
-                  p_unwrap := fun _ _ _ => miss; p_import_epk := fun _ _ _ => miss; p_exchange := fun _ _ => miss;
-                  p_concat_kdf := fun _ _ _ => miss |} in
+      let P := jprims j in
       declined (json_b64decode G P text) || res_pv (json_b64decode G P text) e
   | FDecodeHeader seg j e =>
-      let P := cprims [] (Ok true) in
-      let P' := {| p_json_loads := fun _ => j; p_jws_verify := p_jws_verify P; p_enc_decrypt := p_enc_decrypt P;
-                   p_inflate := p_inflate P; p_dir_cek := p_dir_cek P; p_decrypt_cek := p_decrypt_cek P;
-                   p_gcmkw := p_gcmkw P; p_pbkdf2 := p_pbkdf2 P; p_unwrap := p_unwrap P;
-                   p_import_epk := p_import_epk P; p_exchange := p_exchange P; p_concat_kdf := p_concat_kdf P |} in
+      let P' := jprims j in
       declined (decode_header G P' seg) || res_pv (decode_header G P' seg) e
   | FValidateDictKey ec d e =>
       unit_cls (validate_dict_key G (if ec then value_registry_EC else value_registry_OKP) d) e
@@ -145,11 +170,7 @@ Definition c16_check (c : c16case) : bool :=
       | Ok k, Ok i => index_of ks k 0 =? i | Err a, Err b => exn_eqb a b | _, _ => false end
   | FCheckUse k u e => unit_cls (check_use k u) e
   | FClaims j e =>
-      let P := {| p_json_loads := fun _ => j; p_jws_verify := fun _ _ _ _ => miss;
-                  p_enc_decrypt := fun _ _ _ _ _ _ => miss; p_inflate := fun _ => miss; p_dir_cek := fun _ _ => miss;
-                  p_decrypt_cek := fun _ _ _ => miss; p_gcmkw := fun _ _ _ _ _ => miss; p_pbkdf2 := fun _ _ _ _ => miss;
-                  p_unwrap := fun _ _ _ => miss; p_import_epk := fun _ _ _ => miss; p_exchange := fun _ _ => miss;
-                  p_concat_kdf := fun _ _ _ => miss |} in
+      let P := jprims j in
       res_pv (decode_claims G P []) e
   | EJws entry strict allowed ka value oracle vr e =>
       let P := cprims oracle vr in
@@ -160,6 +181,24 @@ Definition c16_check (c : c16case) : bool :=
       | 1 => let m := r7797_deserialize_compact G P r0 r7 ka value in declined m || res_cls m e
       | _ => let m := jwt_decode_jws G P r0 ka value in declined m || res_cls m e
       end
+  | EJwe entry strict va allowed ka sa value data oracle r e =>
+      let P := rprims (lookup oracle) r in
+      let reg := mk_jwe_reg2 strict va allowed in
+      match entry with
+      | 0 => let m := jwe_decrypt_compact G P reg ka sa value in declined m || is_unreached m || res_cls m e
+      | 1 => let m := jwt_decode_jwe G P reg ka value in declined m || is_unreached m || res_cls m e
+      | _ => let m := jwe_decrypt_json G P reg ka sa data in declined m || is_unreached m || res_cls m e
+      end
+  | FGuessKey ka h e =>
+      match guess_key ka (Ok h), e with
+      | Ok k, Ok i => (match k_kid k with PStr s => lenN s | _ => 0 end) =? i
+      | Err a, Err b => exn_eqb a b | _, _ => false end
+  | FGuessSender sa h e =>
+      match guess_sender_key sa (Ok h), e with
+      | Ok (Some k), Ok i => (match k_kid k with PStr s => lenN s | _ => 0 end) =? i
+      | Ok None, Ok i => i =? 999
+      | Err a, Err b => exn_eqb a b | _, _ => false end
+  | CContract name e => existsb (exn_eqb e) (classes_of name)
   | CGuards =>
       needs_jws_compact G && needs_7797_compact G && needs_jws_json G && needs_7797_json G &&
       needs_jwe_compact G && needs_jwe_json G && g_rec_claims G && g_algstr_jws G
@@ -200,5 +239,29 @@ Definition c16_show (c : c16case) : res unit * list bool :=
       | 1 => cls_of (r7797_deserialize_compact G P r0 r7 ka value)
       | _ => cls_of (jwt_decode_jws G P r0 ka value)
       end
+   | EJwe entry strict va allowed ka sa value data oracle r _ =>
+      let P := rprims (lookup oracle) r in
+      let reg := mk_jwe_reg2 strict va allowed in
+      match entry with
+      | 0 => cls_of (jwe_decrypt_compact G P reg ka sa value)
+      | 1 => cls_of (jwt_decode_jwe G P reg ka value)
+      | _ => cls_of (jwe_decrypt_json G P reg ka sa data)
+      end
+   | FGuessKey ka h _ => cls_of (guess_key ka (Ok h))
+   | FGuessSender sa h _ => cls_of (guess_sender_key sa (Ok h))
    | _ => Ok tt
    end, guards_list G).
+
+(* EJwe cases on which the model was not compared (it needs a primitive the real run did not reach, or declines) *)
+Definition c16_compared (c : c16case) : bool :=
+  match c with
+  | EJwe entry strict va allowed ka sa value data oracle r e =>
+      let P := rprims (lookup oracle) r in
+      let reg := mk_jwe_reg2 strict va allowed in
+      negb (match entry with
+            | 0 => let m := jwe_decrypt_compact G P reg ka sa value in declined m || is_unreached m
+            | 1 => let m := jwt_decode_jwe G P reg ka value in declined m || is_unreached m
+            | _ => let m := jwe_decrypt_json G P reg ka sa data in declined m || is_unreached m
+            end)
+  | _ => true
+  end.
